@@ -1068,6 +1068,15 @@ pub fn run(opts: &Opts) -> Report {
             rep.sample(json!({"script": script, "canonical_form": before}));
         }
     }
+    // values at the edges of their types
+    for (k, (name, v)) in [("datetime-before-year-0", "d:-63500000000000"), ("datetime-after-year-9999", "d:327400000000000"), ("datetime-offset-with-seconds", "d:1700000000000@19s32"), ("datetime-1899-new-york", "d:-2208988800000@-300"), ("largest-integer", "i:9223372036854775807"), ("smallest-integer", "i:-9223372036854775808"), ("float-zero", "f:0"), ("nested-list", "l:i:1|l:s:a|s:b")].iter().enumerate() {
+        let script: Vec<String> = vec!["st addres r0 9".into(), format!("st annot a0 T:r0:b0:b2 s0/k0/{}/d0", v), "st annot a1 A:a0 s0/k1/s:plain".into()];
+        rep.count(&format!("edge-value:{}", name));
+        let n0 = rep.failures.len();
+        check_script(&mut rep, &script, property, &dir, 900_000 + k);
+        // (what fails here is named by the value, so that a listed finding about one value hides nothing else)
+        for f in rep.failures.iter_mut().skip(n0) { if f.kind != "model" { f.signature = format!("{}/edge-value/{}", f.signature, name); } }
+    }
     check_temp_shaped_public_ids(&mut rep, property, &dir);
     if property.map(|p| p == "C15").unwrap_or(true) { check_csv_files(&mut rep, &dir); }
     if property.map(|p| p == "C05").unwrap_or(true) { check_alignment_in_complex_selectors(&mut rep, &dir); }
